@@ -9,6 +9,8 @@ def plan(tier, seed):
     t = 200 if tier == "quick" else 600
     jobs = [ch("C09", F, "h_remove_row_groups", t, ["api.ParquetFile.remove_row_groups", "api.row_groups_map"]),
             ch("C09", F, "h_sort_part_names", t, ["api.ParquetFile._sort_part_names", "api.part_ids", "api.partitions"]),
+            ch("C09", F, "h_sort_part_names_shared_ids", t, ["api.ParquetFile._sort_part_names", "api.part_ids"]),
+            ch("C09", F, "h_overwrite", t, ["writer.overwrite", "api.partitions", "api.ParquetFile.remove_row_groups"]),
             ch("C09", G, "h_multi_append", t, ["api.ParquetFile.write_row_groups", "writer.write_multi"])]
     for ids in ["1,2"] if tier == "quick" else ["1,2", "0,2,5", "9,10"]:
         j = ch("C09", G, "h_multi_append", t, ["writer.write_multi", "writer.find_max_part"], shape=dict(old_ids=ids),
